@@ -366,7 +366,7 @@ fn main() {
         // long lines (1000..5000 chars; ASCII, multi-byte, TABs; alone, after short lines, followed by short / long lines):
         // positions and spans at columns 1, 2, 1023..1026, 1500, 2047..2049, 4095..4097 and at the end of the line.
         // `budget` bounds the work of the (quadratic) extracted model: a case on a text of c chars costs (c/1000)^2; every
-        // text (none longer than `maxlen`) gets the same share and at least 2 cases, chosen at random among its candidates.
+        // text (none longer than `maxlen`) gets the same share and at least 2 cases (1 beyond 3500 chars), chosen at random among its candidates.
         "long" => {
             let seed = arg_u64(2, 1); let k = arg_u64(3, 0); let m = arg_u64(4, 1).max(1); let budget = arg_u64(5, 100) as f64;
             let maxlen = arg_u64(6, 5000) as usize;
@@ -386,7 +386,7 @@ fn main() {
                 let shape = rng.below(15);
                 let (s, mut cands) = long_cases(&mut rng, n, p, shape);
                 let cost = { let c = s.chars().count() as f64 / 1000.0; c * c * (s.len() as f64 / s.chars().count() as f64) };
-                let take = ((share / cost) as usize).max(2).min(cands.len());
+                let take = ((share / cost) as usize).max(if n > 3500 { 1 } else { 2 }).min(cands.len());
                 for _ in 0..take {
                     let (kind, a, b) = cands.swap_remove(rng.below(cands.len() as u64) as usize);
                     sel.push((cost, kind, a, b, strs.len()));
